@@ -166,10 +166,15 @@ Section Run.
       | _ => true
       end
     end.
-  Definition calls_ok (st : bool) (cs : list cres) : bool :=
+  (* retry0: a decoder over a byte slice does not move on a failed call, so a second call after a failure
+     is judged like a first call at offset 0 (BytesSkipDecoder since the repair of its stale offset);
+     for the stream skippers the position after a failure is unspecified: only "no crash" is asked *)
+  Definition calls_ok (st retry0 : bool) (cs : list cres) : bool :=
     match cs with
     | [c1] => zone_ok st t 0 c1
-    | [c1; c2] => zone_ok st t 0 c1 && match c1 with COk n _ _ => zone_ok st (Z.to_N t2) n c2 | _ => negb (match c2 with CCrash => true | _ => false end) end
+    | [c1; c2] => zone_ok st t 0 c1 && match c1 with COk n _ _ => zone_ok st (Z.to_N t2) n c2
+                                     | _ => if retry0 then zone_ok st (Z.to_N t2) 0 c2
+                                            else negb (match c2 with CCrash => true | _ => false end) end
     | _ => false
     end.
 End Run.
@@ -219,8 +224,8 @@ Definition check (c : cval) : verdict :=
       let a := calls_agree m1 i1 && calls_agree m2 i2 && calls_agree m3 i3 && calls_agree m4 i4
                && calls_agree m5 i5 in
       let stall := may_stall chs in
-      let s := calls_ok ty b dp t2 false i1 && calls_ok ty b dp t2 stall i2 && calls_ok ty b dp t2 stall i3
-               && calls_ok ty b dp t2 false i4 && calls_ok ty b dp t2 false i5 in
+      let s := calls_ok ty b dp t2 false false i1 && calls_ok ty b dp t2 stall false i2 && calls_ok ty b dp t2 stall false i3
+               && calls_ok ty b dp t2 false true i4 && calls_ok ty b dp t2 false false i5 in
       let zone := match gparse ty b with
                   | Ok (_, h) => if Nat.ltb h (D dp) then 0 else if Nat.eqb h (D dp) then 1 else 2
                   | Err e => 2 + e
